@@ -49,6 +49,33 @@ def register(R):
                              'gates': {'schedule-fill': gate_fill, 'pyyaml-construct': ok}},
                        note='deferred fill is scheduled only when PyYAML returned a container it will fill later; with deep construction the node is built from the complete value and must not be filled a second time'))
 
+    # ---- parse_scalar: the value of a TAGGED scalar is resolved the way PyYAML resolves the same scalar without the tag:
+    # a plain scalar through the implicit resolvers (12 -> int), a quoted or block scalar as a string ('12' stays text)
+    def gate_resolve(sc, kw):
+        a = kw['args']          # [the bound method loader.resolve, kind, text, (implicit-if-plain, implicit-if-not-plain)]
+        from pyvc.values import TupleV, ClassV
+        if len(a) < 4 or not isinstance(a[3], TupleV) or len(a[3].items) != 2 or not isinstance(a[2], SV):
+            return z3.BoolVal(False)
+        plain = is_none(sc.pre.get('style', sc.ref('node')))
+        i0, i1 = a[3].items
+        # (the text handed over is that of a deep copy of the node: copy.deepcopy is modelled without the fields of foreign objects)
+        return z3.And(sym.truthy_prim(i0.t) == plain, sym.truthy_prim(i1.t) == z3.Not(plain))
+
+    def ext_resolve(it, a, kw, n, fr):
+        it.run.event('C01.resolve-tag-of-untagged-twin', lineno=getattr(n, 'lineno', None), args=a, kwargs=kw, heap=it.heap.snapshot(), index=len(it.run.events))
+        return SV(Val.str(it.run.fresh('resolved_tag', z3.StringSort())))
+    R.opaque['AwesomeyamlLoader.resolve'] = ext_resolve
+    R.add(Contract(Y + 'AwesomeyamlLoader.construct_object', [P.node('self', 'AwesomeyamlLoader', exact=True), P.val('node', 'any')], name='abstract', assume_only=True,
+                   modifies=lambda c: [(f, 'all') for f in ('$llen', '$litem', '_idx', '_source_file', '_priority', '_pyyaml_node') + tuple(S.IMPLICIT)],
+                   result=P.val('result', 'any'), props=('C01',), opts={'callee': False, 'bind_partial': True}, note='construction of the untagged twin (proved separately per node kind)'))
+    R.add(Contract(Y + 'parse_scalar', [P.node('loader', 'AwesomeyamlLoader', exact=True), P.node('node', 'ScalarNode', exact=True)],
+                   requires=lambda c: [('scalar-text', is_str(c.pre.get('value', c.ref('node'))))],
+                   modifies=lambda c: [(f, 'all') for f in ('$llen', '$litem', '_idx', '_source_file', '_priority', '_pyyaml_node', 'tag', 'value', 'style') + tuple(S.IMPLICIT)],
+                   result=P.val('result', 'any'), props=('C01',),
+                   opts={'use': {Y + 'AwesomeyamlLoader.construct_object': 'abstract'}, 'no_search': True, 'no_frame': True, 'skip_kinds': ('safety',),
+                         'gates': {'call-target': gate_resolve, 'deepcopy': lambda sc, kw: z3.BoolVal(True)}},
+                   note='tagged scalars: type resolution of the untagged twin'))
+
     # ---- the merge-control constructors only add flags (structural) ---------------------------------------------------
     FLAG_ONLY = {'_del_constructor': {'delete'}, '_weak_constructor': {'priority'}, '_force_constructor': {'priority'}, '_merge_constructor': {'delete'},
                  '_new_constructor': {'allow_new'}, '_notnew_constructor': {'allow_new'}, '_unsafe_constructor': {'safe'}}
@@ -153,6 +180,37 @@ def register_dump(R):
                                                                                                     'awesomeyaml/nodes/bind.py::BindNode.ayns.tag', D_ + 'ConfigDict._get_value',
                                                                                                     'awesomeyaml/nodes/composed.py::ComposedNode._get_value')}},
                    note='flags written for a function node'))
+
+    # AwesomeyamlDumper.serialize_node: the "write scalars without quotes" mode is switched on for an unquoted scalar node only
+    # while that node is emitted, and whatever the mode was before is back on every exit (otherwise every later scalar of the
+    # document - keys included - is written plain, and strings that need quotes no longer parse back)
+    def base_serialize(it, a, kw, n, fr):
+        it.run.event('C18.emit-node', lineno=getattr(n, 'lineno', None), args=a, kwargs=kw, heap=it.heap.snapshot(), index=len(it.run.events))
+        # the nested calls for the children of a collection node restore the mode themselves (this very contract, one level down)
+        k = it.run.choose(2, 'emit-outcome')
+        if k == 1:
+            from pyvc.interp import exc_is
+            from pyvc.core import RaiseEx
+            from pyvc.values import ExcV
+            raise RaiseEx(ExcV('Exception', fields={}, lineno=getattr(n, 'lineno', None)))
+        return SV(it.run.fresh('serialized'))
+    R.opaque['super:AwesomeyamlDumper.serialize_node'] = base_serialize
+
+    def gate_emit(sc, kw):
+        h = kw['heap']
+        d = sc.ref('self')
+        unq = sc.eng.isinstance_term(sc.pre.cls(sc.ref('node')), 'UnquotedNode')
+        return h.get('_unquoted', d) == z3.If(unq, sym.TRUE, sc.pre.get('_unquoted', d))
+
+    for ncls in ('UnquotedNode', 'ScalarNode', 'MappingNode'):
+        R.add(Contract(Y + 'AwesomeyamlDumper.serialize_node', [P.node('self', 'AwesomeyamlDumper', exact=True), P.node('node', ncls, exact=True), P.val('parent', 'any'), P.val('index', 'any')],
+                       name=ncls, requires=lambda c: [('mode-is-bool', is_bool(c.pre.get('_unquoted', c.ref('self'))))],
+                       modifies=lambda c: [('_unquoted', [c.ref('self')])],
+                       ensures=[('C18.unquoted-mode-restored-after-a-node-is-written', lambda c: c.post.get('_unquoted', c.ref('self')) == c.pre.get('_unquoted', c.ref('self')))],
+                       raises=[Raises('Exception')], result=P.val('result', 'any'), props=('C18',),
+                       opts={'no_search': True, 'gates': {'C18.emit-node': gate_emit}, 'gates_on_raise': True, 'skip_kinds': ('safety',),
+                             'ensures_on_raise': [('C18.unquoted-mode-restored-when-writing-fails', lambda c: c.post.get('_unquoted', c.ref('self')) == c.pre.get('_unquoted', c.ref('self')))]},
+                       note='scalar quoting mode of the dumper around one node'))
 
     # _decode_metadata: special names become constructor keywords, the rest stays user metadata
     SPECIAL = ['idx', 'priority', 'delete', 'allow_new', 'source_file', 'safe']
